@@ -716,25 +716,25 @@ def gen_all():
             subst=[(r"\$self", "SELF"), (r"std::mem::size_of::<\$t>\(\)", "SIZEOF")])
     LM = "src/message/reader/labels/macros.rs"
     LABP = ["C01", "C03"]
-    g.guard(LABP, LM, "labels_loop!", r"\bif\s+(offset[^{]*?)\s*\{\s*return\s+Err\(\s*Error::DomainNameBadPointer", "ptr_not_backward",
+    g.guard(LABP, LM, "labels_loop!", r"\bif\s+([^{]*?)\s*\{\s*return\s+Err\(\s*Error::DomainNameBadPointer", "ptr_not_backward",
             [("offset", N), ("max_pos", N)], {"offset": ("offset", "u16"), "MAXPOS": ("max_pos", "usize")},
             subst=[(r"\$max_pos", "MAXPOS")])
-    g.guard(LABP, LM, "labels_loop!", r"\bif\s+(\$n_pointers[^{]*?)\s*\{\s*return\s+Err\(\s*Error::DomainNameTooMuchPointers", "ptr_too_many",
+    g.guard(LABP, LM, "labels_loop!", r"\bif\s+([^{]*?)\s*\{\s*return\s+Err\(\s*Error::DomainNameTooMuchPointers", "ptr_too_many",
             [("n_pointers", N)], {"NPTR": ("n_pointers", "usize")}, subst=[(r"\$n_pointers", "NPTR")])
-    g.guard(LABP, LM, "labels_loop!", r"\bif\s+(label\s*==[^{]*?)\s*\{\s*if\s+\$max_pos\s*==\s*0", "label_is_end",
+    g.guard(LABP, LM, "labels_loop!", r"\bif\s+([^{]*?)\s*\{\s*if\s+\$max_pos\s*==\s*0", "label_is_end",
             [("label", N)], {"label": ("label", "u8")})
     NAMP = ["C05", "C08"]
     for path, pfx, field in [("src/names/name.rs", "name", "self.name"), ("src/names/inline_name.rs", "inline", "self.arr")]:
         env = {field: ("name", "usize"), "label_as_str": ("label", "usize"), "new_len": ("new_len", "usize")}
         g.guard(NAMP, path, "append_label_bytes", r"let\s+new_len\s*=\s*([^;]*?)\s*;", pfx + "_decoded_new_len",
                 [("name_len", N), ("label_len", N)], env, ret="Nat")
-        g.guard(NAMP, path, "append_label_bytes", r"\bif\s+(new_len[^{]*?)\s*\{\s*return\s+Err\(\s*Error::DomainNameTooLong\(\s*([^)]*?)\s*\)", pfx + "_decoded_too_long",
+        g.guard(NAMP, path, "append_label_bytes", r"\bif\s+([^{]*?\bnew_len\b[^{]*?)\s*\{\s*return\s+Err\(\s*Error::DomainNameTooLong\(\s*([^)]*?)\s*\)", pfx + "_decoded_too_long",
                 [("new_len", N)], env)
     g.guard(NAMP, "src/names/utils.rs", "check_name_bytes", r"let\s+full_length\s*=\s*if\s+last_byte\s*==\s*b'\.'\s*\{\s*([^}]*?)\s*\}\s*else", "text_full_len_dotted",
             [("len", N)], {"len": ("len", "usize")}, ret="Nat")
     g.guard(NAMP, "src/names/utils.rs", "check_name_bytes", r"let\s+full_length\s*=\s*if\s+last_byte\s*==\s*b'\.'\s*\{[^}]*\}\s*else\s*\{\s*([^}]*?)\s*\}\s*;", "text_full_len_undotted",
             [("len", N)], {"len": ("len", "usize")}, ret="Nat")
-    g.guard(NAMP, "src/names/utils.rs", "check_name_bytes", r"\bif\s+(full_length[^{]*?)\s*\{\s*return\s+Err\(\s*Error::DomainNameTooLong", "text_too_long",
+    g.guard(NAMP, "src/names/utils.rs", "check_name_bytes", r"\bif\s+([^{]*?)\s*\{\s*return\s+Err\(\s*Error::DomainNameTooLong", "text_too_long",
             [("full_length", N)], {"full_length": ("full_length", "usize")})
     e("")
 
@@ -758,10 +758,10 @@ def gen_all():
             raise ParseError("unexpected variants %s/%s" % (m.group(1), m.group(2)))
     g.attempt("guard[C06,C07] src/message/message_type.rs:impl From<bool>", message_type_from_bool,
               lambda: g.emit("def message_type_is_response (b : Bool) : Bool := false"))
-    g.guard(RSP, RS, "from_msg", r"\bif\s+(flags\.message_type\(\)[^{]*?)\s*\{\s*return\s+Err\(\s*Error::BadMessageType", "rrset_not_response",
+    g.guard(RSP, RS, "from_msg", r"\bif\s+([^{]*?)\s*\{\s*return\s+Err\(\s*Error::BadMessageType", "rrset_not_response",
             [("is_response", B)], {"ISRESP": ("is_response", "bool"), "TRUE": ("true", "bool")},
             subst=[(r"flags\.message_type\(\)", "ISRESP"), (r"MessageType::Response", "TRUE")])
-    g.guard(RSP, RS, "from_msg", r"\bif\s+(flags\.truncated\(\)[^{]*?)\s*\{\s*return\s+Err\(\s*Error::MessageTruncated", "rrset_truncated",
+    g.guard(RSP, RS, "from_msg", r"\bif\s+([^{]*?)\s*\{\s*return\s+Err\(\s*Error::MessageTruncated", "rrset_truncated",
             [("tc", B)], {"TC": ("tc", "bool")}, subst=[(r"flags\.truncated\(\)", "TC")])
     def rcode_noerror():
         src = strip_comments(read("src/message/rcode.rs"))
@@ -771,7 +771,7 @@ def gen_all():
         g.emit("/-- `src/message/rcode.rs` : `RCode::NOERROR` -/")
         g.emit("def RCODE_NOERROR : Nat := %s" % m.group(1))
     g.attempt("guard[C06,C07] src/message/rcode.rs:NOERROR", rcode_noerror, lambda: g.emit("def RCODE_NOERROR : Nat := 65536"))
-    g.guard(RSP, RS, "from_msg", r"\bif\s+(response_code[^{]*?)\s*\{\s*return\s+Err\(\s*Error::BadResponseCode", "rrset_bad_rcode",
+    g.guard(RSP, RS, "from_msg", r"\bif\s+([^{]*?)\s*\{\s*return\s+Err\(\s*Error::BadResponseCode", "rrset_bad_rcode",
             [("response_code", "Nat")], {"response_code": ("response_code", "u16"), "NOERROR": ("RCODE_NOERROR", "u16")},
             subst=[(r"RCode::NOERROR", "NOERROR")])
 
@@ -787,7 +787,7 @@ def gen_all():
             subst=[(r"h\.ttl\(\)", "HTTL")], ret="Nat")
     g.guard(RSP, RS, "extract_rrset", r"\bif\s+(!?rrset\.rdata\.is_empty\(\))\s*\{\s*Ok\(Some\(rrset\)\)", "rrset_found",
             [("rdata_is_empty", B)], {"EMPTY": ("rdata_is_empty", "bool")}, subst=[(r"rrset\.rdata\.is_empty\(\)", "EMPTY")])
-    g.guard(RSP, RS, "read_opt", r"\bif\s+(marker\.rtype[^{]*?)\s*\{\s*opt\s*=", "rrset_is_opt",
+    g.guard(RSP, RS, "read_opt", r"\bif\s+([^{]*?)\s*\{\s*opt\s*=", "rrset_is_opt",
             [("rtype", "Nat")], {"marker.rtype": ("rtype", "u16"), "OPT": ("TYPE_OPT", "u16")}, subst=[(r"Type::OPT", "OPT")])
     e("")
 
@@ -799,7 +799,7 @@ def gen_all():
     def client_guards(path, p, std):
         B, N = "Bool", "Nat"
         # query_raw (ClientImpl): the caller's buffer must hold a minimal message
-        g.guard(CL, path, "query_raw", r"\bif\s+(buf\.len\(\)\s*<[^{]*?)\s*\{\s*return\s+Err\(\s*Error::BufferTooShort",
+        g.guard(CL, path, "query_raw", r"\bif\s+([^{]*?)\s*\{\s*return\s+Err\(\s*Error::BufferTooShort",
                 p + "_buf_too_short", [("buf_len", N)], {"buf": ("buf", "usize")})
         # query_rrset: parameter gates
         g.guard(CL, path, "query_rrset", r"\bif\s+([^{]*?)\s*\{\s*return\s+Err\(\s*Error::BadParam",
@@ -809,7 +809,7 @@ def gen_all():
                 p + "_rrset_bad_class", [("is_data_class", B)], {"ISDATA": ("is_data_class", "bool")},
                 subst=[(r"qclass\.is_data_class\(\)", "ISDATA")])
         # query_raw_impl: truncation fallback
-        g.guard(CL, path, "query_raw_impl", r"\bif\s+(flags\.truncated\(\)[^{]*?)\s*\{\s*self\.tcp_exchange\(\)",
+        g.guard(CL, path, "query_raw_impl", r"\bif\s+([^{]*?)\s*\{\s*self\.tcp_exchange\(\)",
                 p + "_tcp_fallback", [("tc", B), ("tcp_allowed", B)],
                 {"TC": ("tc", "bool"), "TCPOK": ("tcp_allowed", "bool")},
                 subst=[(r"flags\.truncated\(\)", "TC"), (r"self\.tcp_allowed\(\)", "TCPOK")])
@@ -820,11 +820,11 @@ def gen_all():
         g.guard(CL, path, "tcp_exchange", r"let\s+response_size\s*=\s*(u16::from_be_bytes\(response_size_buf\)\s+as\s+usize)\s*;",
                 p + "_tcp_prefix", [("b0", N), ("b1", N)], {"B0": ("b0", "u16"), "B1": ("b1", "u16")},
                 subst=[(r"u16::from_be_bytes\(response_size_buf\)", "((B0 << 8) | B1)")], ret="Nat")
-        g.guard(CL, path, "tcp_exchange", r"\bif\s+(response_size\s*>[^{]*?)\s*\{\s*return\s+Err\(\s*Error::BufferTooShort\(\s*response_size\s*\)",
+        g.guard(CL, path, "tcp_exchange", r"\bif\s+([^{]*?)\s*\{\s*return\s+Err\(\s*Error::BufferTooShort\(\s*response_size\s*\)",
                 p + "_tcp_too_big", [("response_size", N), ("buf_len", N)],
                 {"response_size": ("response_size", "usize"), "self.buf": ("buf", "usize")})
         # udp_receive_loop: the acceptance filter
-        g.guard(CL, path, "udp_receive_loop", r"\bif\s+(header\.id[^{]*?)\s*\{\s*continue\s*;",
+        g.guard(CL, path, "udp_receive_loop", r"\bif\s+([^{]*?)\s*\{\s*continue\s*;",
                 p + "_udp_id_reject", [("header_id", N), ("msg_id", N)],
                 {"header.id": ("header_id", "u16"), "self.msg_id": ("msg_id", "u16")})
         g.guard(CL, path, "udp_receive_loop",
@@ -857,9 +857,9 @@ def gen_all():
     client_guards("templates/async_client_impl.rs", "async", False)
     # ClientConfig::check: the two EDNS conditions
     CC = "src/clients/config/client_config.rs"
-    g.guard(CL, CC, "check", r"\bif\s+(\(udp_payload_size[^{]*?<[^{]*?)\s*\{\s*return\s+Err\(\s*Error::BadParam",
+    g.guard(CL, CC, "check", r"\bif\s+((?![^{]*buffer_size_)[^{]*?udp_payload_size[^{]*?)\s*\{\s*return\s+Err\(\s*Error::BadParam",
             "cfg_payload_too_small", [("udp_payload_size", "Nat")], {"udp_payload_size": ("udp_payload_size", "u16")})
-    g.guard(CL, CC, "check", r"\bif\s+(self\.buffer_size_[^{]*?)\s*\{\s*return\s+Err\(\s*Error::BadParam",
+    g.guard(CL, CC, "check", r"\bif\s+([^{]*?buffer_size_[^{]*?)\s*\{\s*return\s+Err\(\s*Error::BadParam",
             "cfg_payload_exceeds_buffer", [("udp_payload_size", "Nat"), ("buffer_size", "Nat")],
             {"udp_payload_size": ("udp_payload_size", "u16"), "self.buffer_size_": ("buffer_size", "usize")})
     e("")
